@@ -262,6 +262,15 @@ class Session:
             res = self.obj.has_reading(nm)
         elif what == "hex.reading_as_list":
             res = ("list", self.obj.reading_as_list(nm))
+        elif what == "hex.candles":
+            from proj import ts_of
+
+            got = self.obj.candles(name or None)
+            res = ("list", [ts_of(c.timestamp, self.base) for c in got])
+            names = [n for n, _ in self.managers()]
+            j = names.index(name) + 1 if name in names else 1
+        elif what == "hex.timeframes":
+            res = len(self.obj.timeframes)
         else:
             touch = True
             if what == "str":
@@ -281,7 +290,9 @@ class Session:
             else:
                 raise ValueError(what)
         # which manager the spec should look at
-        if what.startswith("ind.") and ind is not None:
+        if what == "hex.candles":
+            pass
+        elif what.startswith("ind.") and ind is not None:
             j = self.manager_index_of(ino)
         elif what == "hex.reading_as_list":
             prim = nm.split(".")[0]
@@ -418,7 +429,8 @@ def record(sc):
         except Exception as e:  # recorded, judged by the spec
             exc = type(e).__name__
         if ses.obj is None:
-            snaps.append(({"op": step[0], "a": 0, "b": 0, "nm": "", "idx": 0, "exc": exc or "NoObject",
+            snaps.append(({"op": step[0], "a": 0, "b": step[1] if step[0] == "new" else 0, "nm": "", "idx": 0,
+                           "exc": exc or "NoObject",
                            "bt": [], "ob": {"at": [], "ai": 0}, "rd": [], "ab": [], "aa": [], "wk": []}, {}))
             break
         if step[0] == "new":
